@@ -257,11 +257,12 @@ func c05Config(r *rand.Rand) *RunConfig {
 		Kinds:             swarmKinds(r, []string{"obj", "text", "cnt", "arr"}, "create"),
 		W:                 map[string]int{"update": 50, "sync": 40, "push_only": r.IntN(4), "bg": 3, "bgdrain": 2, "held": 3},
 		Extra: map[string]int{
-			"cons_pct":      60,
-			"fault_at_sync": 1 + r.IntN(6), // which pushing sync gets the fault
-			"fault_pos":     r.IntN(1 << 20),
-			"retry_edits":   r.IntN(2),
-			"c05":           1,
+			"cons_pct":        60,
+			"fault_at_sync":   1 + r.IntN(6), // which pushing sync gets the fault
+			"fault_pos":       r.IntN(1 << 20),
+			"retry_edits":     r.IntN(2),
+			"retry_push_only": r.IntN(2), // the retry is a push-only sync (the SDK's realtime push-only mode)
+			"c05":             1,
 		},
 	}
 	applyKnownFindingSplits(r, cfg)
@@ -329,7 +330,11 @@ func (f *c05Faulter) decorate(rc *RunCtx, s *session, st *Step) {
 		e := consEdit(rc.G, st.C)
 		s.queue = append(s.queue, Step{Op: "update", C: st.C, Edits: []Edit{e}})
 	}
-	s.queue = append(s.queue, Step{Op: "sync", C: st.C})
+	retry := Step{Op: "sync", C: st.C}
+	if rc.Cfg.Extra["retry_push_only"] > 0 {
+		retry.Flag = "push_only"
+	}
+	s.queue = append(s.queue, retry)
 }
 
 func c05Monitors(rc *RunCtx) []Monitor {
